@@ -13,14 +13,21 @@ def geometry_violation(doc, impl_out):
     limit = doc['pageH'] * (1 + Fraction(1, 10**9))
     line_h = {}
 
+    def clone_negative(box):
+        return (box['st']['clone'] and box['st']['mb'] < 0) or any(clone_negative(k) for k in box['kids'])
+    if clone_negative(doc['root']):
+        return None     # known finding clone-negative-margin-bottom: the reserved bottom space becomes negative
+
     def heights(box):
         if box['kind'] == 'para':
             line_h[box['id']] = box['lineH']
         for kid in box['kids']:
             heights(kid)
     heights(doc['root'])
-    for page in sx.loads_line(impl_out):
+    pages = sx.loads_line(impl_out)
+    for number, page in enumerate(pages):
         first = [True]
+        nxt = frag_ids(pages[number + 1][-1], set()) if number + 1 < len(pages) else set()
 
         def walk(frag):
             if frag[0] == 'p':
@@ -38,7 +45,45 @@ def geometry_violation(doc, impl_out):
         bad = walk(page[-1])
         if bad:
             return bad
+        bad = decoration_overflow(page, limit, frozenset(nxt))
+        if bad:
+            return bad
     return None
+
+
+def decoration_overflow(page, limit, continued=frozenset()):
+    """"A fragmented box's own bottom padding/border also fits": for a fragment that is continued on the next
+    page and keeps its bottom decoration (box-decoration-break: clone), the bottom border edge must not be
+    below the page bottom - unless the box lies on the chain of first content of the page."""
+    def walk(frag, on_first_chain):
+        geo = [Fraction(x) for x in frag[3:11]]
+        y, mt, mb, pt, pb, bt, bb, h = geo
+        bottom = y + mt + bt + pt + h + pb + bb
+        forced_only = on_first_chain and leaf_count(frag) <= 1
+        if (pb or bb) and int(frag[1]) in continued and bottom > limit and not forced_only:
+            return (f'page {page[1]}: bottom padding/border of the fragmented box {frag[1]} ends at {bottom} '
+                    f'below the page bottom')
+        if frag[0] == 'b':
+            for i, kid in enumerate(frag[-1]):
+                bad = walk(kid, on_first_chain and i == 0)
+                if bad:
+                    return bad
+        return None
+    return walk(page[-1], True)
+
+
+def leaf_count(frag):
+    if frag[0] == 'p':
+        return len(frag[-1])
+    return sum(leaf_count(k) for k in frag[-1]) if frag[-1] else 1
+
+
+def frag_ids(frag, out):
+    out.add(int(frag[1]))
+    if frag[0] == 'b':
+        for kid in frag[-1]:
+            frag_ids(kid, out)
+    return out
 
 
 class C03(PropCheck):
@@ -78,6 +123,7 @@ class C03(PropCheck):
 
     def finding_replays(self):
         return {'table-in-columns-rows-overflow': table_in_columns_overflow,
+                'clone-negative-margin-bottom': clone_negative_margin,
                 'table-rows-after-overflowing-first-item': lambda: corpus_overflow('table_rows_after_overflow')}
 
     def judge(self, d):
@@ -95,7 +141,7 @@ class C03(PropCheck):
             run.search_stats['evaluations'] += 1
             out = pm_corr.real_line(doc)
             what = geometry_violation(doc, out) or pm_corr.progress_violation(doc, out)
-            if what:
+            if what and out != pm_corr.model_line(self, doc):   # only inputs on which the code left the model
                 def bad(c):
                     o = pm_corr.real_line(c)
                     return bool(geometry_violation(c, o) or pm_corr.progress_violation(c, o))
@@ -112,6 +158,16 @@ class C03(PropCheck):
             out = pm_corr.real_line(doc)
             return geometry_violation(doc, out) or pm_corr.progress_violation(doc, out)
         return None
+
+
+def clone_negative_margin():
+    docs.quiet()
+    html = ('<style>@page{size:200px 120px;margin:0}html,body{margin:0}</style>'
+            '<p style="margin:4px 0 -4px 0;box-decoration-break:clone;font-size:2px;line-height:20px">'
+            'a<br>b<br>c<br>d<br>e<br>f</p>')
+    document = docs.render(html)
+    bottom, items = wide_trace.fit_items(document.pages[0])
+    return any(b > bottom and not first for b, first in items)
 
 
 def table_in_columns_overflow():
